@@ -1,4 +1,5 @@
 import ast
+import copy
 from dataclasses import dataclass
 from typing import ClassVar
 
@@ -276,8 +277,13 @@ class NewArrayChecker(CustomCallChecker):
         # Extract the iterator size
         match gen.iter_assign:
             case ast.Assign(value=MakeIter() as make_iter):
+                # Only the type is needed here. Checking rewrites nodes in place, so work
+                # on a copy: the iterator is checked again below as part of the
+                # comprehension (it could itself contain an array comprehension).
                 sized_make_iter = MakeIter(
-                    make_iter.value, make_iter.origin_node, unwrap_size_hint=False
+                    copy.deepcopy(make_iter.value),
+                    make_iter.origin_node,
+                    unwrap_size_hint=False,
                 )
                 _, iter_ty = ExprSynthesizer(self.ctx).synthesize(sized_make_iter)
                 # The iterator must have a static size hint
